@@ -644,9 +644,23 @@ func cmdCheck(args []string) int {
 				labels = append(labels, lb)
 			}
 			sort.Strings(labels)
+			required := map[string]bool{}
+			for _, want := range h.Covers {
+				required[want] = true
+			}
+			// every cover the spec requires is replayed; other cover points up to the limit
 			nc := 0
 			for _, lb := range labels {
-				if nc >= get("cover_replays", 6) {
+				if required[lb] {
+					pend = append(pend, pending{"cover", lb, st.Covers[lb], h, ""})
+					nc++
+				}
+			}
+			for _, lb := range labels {
+				if required[lb] {
+					continue
+				}
+				if nc >= get("cover_replays", 12) {
 					break
 				}
 				pend = append(pend, pending{"cover", lb, st.Covers[lb], h, ""})
@@ -714,9 +728,10 @@ func cmdCheck(args []string) int {
 					}
 				}
 			}
-			if ok {
+			nativeFails := rr != nil && !engineOnly && rr.Mismatch == "" && !rr.Assume && (strings.HasPrefix(rr.Failed, spec.Property+".") || rr.Panic != "") && !strings.Contains(rr.Failed, ".setup")
+			if ok && !nativeFails {
 				validated++
-			} else if rr != nil && !engineOnly && rr.Mismatch == "" && !rr.Assume && (strings.HasPrefix(rr.Failed, spec.Property+".") || rr.Panic != "") && !strings.Contains(rr.Failed, ".setup") {
+			} else if nativeFails {
 				// the real code, run natively on the engine's witness input, fails one of the
 				// property's assertions (or panics) although the engine's path passed: the concrete
 				// run is the ground truth (an environment model was more forgiving than reality)
